@@ -46,10 +46,24 @@ CLAIMS.update({
         note="value-bag, sval and the serde bridges are exercised, not modelled; values from a seeded pool; don't-cares: Display/Debug text after buffering, inspect-mode formatting of primitives; reads through each sink are covered by C13"),
 })
 
+CLAIMS.update({
+    "C12": dict(cat="model_checking", ref="6/C12",
+        technique="TLA+ spec Otlp.tla (request grouping, send loop, connection poisoning, reply interpretation, batcher retry) model-checked by TLC; TLC-generated fault scenarios run on real emit_otlp emitters against a scripted loopback collector; recorded traces validated by TLC against OtlpTrace.tla (level A) and OtlpConf.tla (level B)",
+        text="TLC explores every emitter/worker interleaving and every bounded collector fault script of the export design (AtLeastOnce, ExactlyOnceWhenClean, ResendSame, FreshConnAfterBreak, NoSilentLoss, Grouping; liveness FlushCompletes; the double-pop design must violate AtLeastOnce); the generated scenarios are crossed with HTTP/JSON, HTTP/protobuf, gRPC x gzip x signal subsets and run on real emitters against a collector that acks, rejects (5xx, grpc-status in trailer or trailers-only), stalls, resets before/after reading or refuses; every recorded trace (Emit, Req with decoded event ids, Connect, FlushRet) is decided by TLC against the level-A monitor, including batches above the real 1 MiB limit and one-signal-down scenarios; a corrupted trace must be rejected on every run.",
+        note="uses guarded hooks emit_otlp::verif (request size limit, request timeout) and emit_batcher::verif::set_delay_scale; level B models one signal, SignalsIndependent and FlushCompletes are judged at level A with wall-clock margins; retry-budget exhaustion out of scope; trusts the harness collector/decoder, prost-generated types, TLC"),
+    "C14": dict(cat="model_checking", ref="6/C14",
+        technique="TLA+ spec OtlpRoute.tla: the TryMetrics/TryTraces/TryLogs/Discard emit path as a state machine checked by TLC to equal the statement's Route on the whole abstract domain; every case replayed as one tagged event on a real Otlp emitter",
+        text="TLC enumerates kind spelling x extent x metric-value shape x aggregation x the 8 signal subsets as initial states and checks RouteRefines, DiscardCounted, OnlyConfigured, SentOnce on the transcription of the encoders' decline conditions; each case is then sent as one tagged event through a real emit_otlp::Otlp per signal subset and transport to the loopback collector: the endpoint that received the tag exactly once and the event_discarded delta must be a route the statement permits.",
+        note="one concrete value per abstract class; lenient kind spellings and empty sequences are don't-cares; collector always acks; trusts the harness collector/decoder and prost-generated types"),
+})
+
 NOT_YET = {}
 
 
 def main():
+    import subprocess
+    log = subprocess.run(["git", "-C", "/repo", "log", "--format=%h %s"], capture_output=True, text=True).stdout
+    SOURCE_COMMITS[:] = [l.split()[0] for l in log.splitlines() if l.split(" ", 1)[1].startswith("verif hooks")]
     props = [json.loads(l)["id"] for l in open(os.path.join(VERIF, "properties.jsonl"))]
     checks = []
     for pid in props:
@@ -92,7 +106,7 @@ def main():
         json.dump(m, f, indent=1)
 
 
-SOURCE_COMMITS = []
+SOURCE_COMMITS = []   # filled from git log by main()
 
 if __name__ == "__main__":
     main()
